@@ -945,8 +945,8 @@ theorem baseArr_spec {v : Var} (h : v.WF) : (baseArr v).WF ∧ (baseArr v).abs =
   | str => exact ⟨Arr.WF.dense _, rfl⟩
   | indexed => exact ⟨h.arr, rfl⟩
 
-theorem wf_indexed {a : Arr} (w : a.WF) (str : Str) : (Var.mk .indexed true str a).WF :=
-  ⟨w, (fun c => by cases c), fun _ => rfl⟩
+theorem wf_indexed {a : Arr} (w : a.WF) (set : Bool) (str : Str) : (Var.mk .indexed set str a).WF :=
+  ⟨w, (fun c => by cases c)⟩
 
 theorem setWithIndex_spec (v : Var) {base : Arr} (hb : base.WF) (i : Int) (s : Str) :
     ∃ v', setWithIndex v base i s = .ok v' ∧
@@ -959,7 +959,7 @@ theorem setWithIndex_spec (v : Var) {base : Arr} (hb : base.WF) (i : Int) (s : S
   · rw [if_neg hj]
     obtain ⟨a1, e1, w1, ab1⟩ := setElem_spec hb (resolve base.abs i) s (by omega)
     rw [e1]
-    exact ⟨_, rfl, fun c => absurd c hj, fun _ => ⟨wf_indexed w1 _, rfl, ab1⟩⟩
+    exact ⟨_, rfl, fun c => absurd c hj, fun _ => ⟨wf_indexed w1 _ _, rfl, ab1⟩⟩
 
 theorem abs_nil_of_list_nil {a : Arr} (e : a.list = []) : a.abs = [] := by
   unfold Arr.abs
@@ -1020,7 +1020,7 @@ theorem appendZero_spec {a : Arr} (h : a.WF) (s : Str) :
     rw [ab1, abs_nil_of_list_nil el]
     simp [SMap.lookup, optStr]
 
-theorem Var.WF.zero_var : Var.zero.WF := ⟨Arr.WF.dense _, fun _ => rfl, fun c => (c rfl).elim⟩
+theorem Var.WF.zero_var : Var.zero.WF := ⟨Arr.WF.dense _, fun _ => rfl⟩
 
 /-! ## E. reads -/
 
@@ -1275,27 +1275,28 @@ theorem appendWithIndex_spec (v : Var) {base : Arr} (hb : base.WF) (i : Int) (s 
     obtain ⟨a1, e1, w1, ab1⟩ := setElem_spec hb (resolve base.abs i)
       (optStr (base.abs.lookup (resolve base.abs i)) ++ s) (by omega)
     rw [e1]
-    exact ⟨_, rfl, fun c => absurd c hj, fun _ => ⟨wf_indexed w1 _, rfl, ab1⟩⟩
+    exact ⟨_, rfl, fun c => absurd c hj, fun _ => ⟨wf_indexed w1 _ _, rfl, ab1⟩⟩
 
 theorem abs_of_indexed {v : Var} (hk : v.kind = .indexed) : v.abs = ⟨.indexed, v.arr.abs⟩ := by
   simp [Var.abs, Var.absMap, hk]
 
-/-- Every operation preserves the invariant, never panics, and is the bash operation on the
+/-- Every operation preserves the invariant and never panics; outside the recorded divergence
+    (`opOK`: `unset a` on a variable that is not `IsSet()`) it is the bash operation on the
     abstract variable. -/
 theorem applyOp_spec (v : Var) (op : Op) (h : v.WF) :
-    ∃ v', applyOp v op = .ok v' ∧ v'.WF ∧ v'.abs = specOp v.abs op := by
+    ∃ v', applyOp v op = .ok v' ∧ v'.WF ∧ (opOK v op = true → v'.abs = specOp v.abs op) := by
   obtain ⟨bw, bab⟩ := baseArr_spec h
   cases op with
   | assign es =>
     obtain ⟨a', e, w, ab⟩ := litLoop_spec es ⟨[], none⟩ 0 (Arr.WF.dense _) (Int.le_refl _)
-    refine ⟨⟨.indexed, true, v.str, a'⟩, by simp only [applyOp, e, liftArr], wf_indexed w _, ?_⟩
+    refine ⟨⟨.indexed, true, v.str, a'⟩, by simp only [applyOp, e, liftArr], wf_indexed w _ _, fun _ => ?_⟩
     rw [abs_of_indexed rfl]
     simp only [specOp, ab]
     rfl
   | append es =>
     obtain ⟨a', e, w, ab⟩ := litLoop_spec es (baseArr v) (indexedMax (baseArr v) + 1) bw
       (by have := indexedMax_ge bw; omega)
-    refine ⟨⟨.indexed, true, v.str, a'⟩, by simp only [applyOp, e, liftArr], wf_indexed w _, ?_⟩
+    refine ⟨⟨.indexed, true, v.str, a'⟩, by simp only [applyOp, e, liftArr], wf_indexed w _ _, fun _ => ?_⟩
     rw [indexedMax_spec bw, bab] at ab
     rw [abs_of_indexed rfl]
     simp only [specOp, ab]
@@ -1303,7 +1304,7 @@ theorem applyOp_spec (v : Var) (op : Op) (h : v.WF) :
   | setElem i s =>
     obtain ⟨v', e, hneg, hpos⟩ := setWithIndex_spec v bw i s
     rw [bab] at hneg hpos
-    refine ⟨v', e, ?_, ?_⟩
+    refine ⟨v', e, ?_, fun _ => ?_⟩
     · by_cases hj : resolve v.absMap i < 0
       · rw [hneg hj]; exact h
       · exact (hpos hj).1
@@ -1316,7 +1317,7 @@ theorem applyOp_spec (v : Var) (op : Op) (h : v.WF) :
   | appElem i s =>
     obtain ⟨v', e, hneg, hpos⟩ := appendWithIndex_spec v bw i s
     rw [bab] at hneg hpos
-    refine ⟨v', e, ?_, ?_⟩
+    refine ⟨v', e, ?_, fun _ => ?_⟩
     · by_cases hj : resolve v.absMap i < 0
       · rw [hneg hj]; exact h
       · exact (hpos hj).1
@@ -1333,28 +1334,28 @@ theorem applyOp_spec (v : Var) (op : Op) (h : v.WF) :
       obtain ⟨v', e, _, hpos⟩ := setWithIndex_spec v h.arr 0 s
       have hj : ¬ resolve v.arr.abs 0 < 0 := by simp [resolve]
       obtain ⟨w, k, ab⟩ := hpos hj
-      refine ⟨v', e, w, ?_⟩
+      refine ⟨v', e, w, fun _ => ?_⟩
       rw [abs_of_indexed k, ab, abs_of_indexed hk]
       simp [specOp, resolve]
     | unknown =>
-      refine ⟨_, rfl, ⟨h.arr, (fun c => by cases c), fun _ => rfl⟩, ?_⟩
+      refine ⟨_, rfl, ⟨h.arr, (fun c => by cases c)⟩, fun _ => ?_⟩
       simp [Var.abs, Var.absMap, hk, specOp]
     | str =>
-      refine ⟨_, rfl, ⟨h.arr, (fun c => by cases c), fun _ => rfl⟩, ?_⟩
+      refine ⟨_, rfl, ⟨h.arr, (fun c => by cases c)⟩, fun _ => ?_⟩
       simp [Var.abs, Var.absMap, hk, specOp]
   | appStr s =>
     simp only [applyOp]
     cases hk : v.kind with
     | indexed =>
       obtain ⟨a', e, w, ab⟩ := appendZero_spec h.arr s
-      refine ⟨⟨.indexed, true, v.str, a'⟩, by simp only [e, liftArr], wf_indexed w _, ?_⟩
+      refine ⟨⟨.indexed, true, v.str, a'⟩, by simp only [e, liftArr], wf_indexed w _ _, fun _ => ?_⟩
       rw [abs_of_indexed rfl, abs_of_indexed hk]
       simp only [specOp, ab]
     | unknown =>
-      refine ⟨_, rfl, ⟨h.arr, (fun c => by cases c), fun _ => rfl⟩, ?_⟩
+      refine ⟨_, rfl, ⟨h.arr, (fun c => by cases c)⟩, fun _ => ?_⟩
       simp [Var.abs, Var.absMap, hk, specOp, SMap.lookup, optStr, h.zero hk]
     | str =>
-      refine ⟨_, rfl, ⟨h.arr, (fun c => by cases c), fun _ => rfl⟩, ?_⟩
+      refine ⟨_, rfl, ⟨h.arr, (fun c => by cases c)⟩, fun _ => ?_⟩
       simp [Var.abs, Var.absMap, hk, specOp, SMap.lookup, optStr]
   | unsetElem i =>
     simp only [applyOp]
@@ -1363,54 +1364,153 @@ theorem applyOp_spec (v : Var) (op : Op) (h : v.WF) :
       simp only [resolve_model h.arr]
       by_cases hj : resolve v.arr.abs i < 0
       · rw [if_pos hj]
-        refine ⟨v, rfl, h, ?_⟩
+        refine ⟨v, rfl, h, fun _ => ?_⟩
         rw [abs_of_indexed hk]
         simp [specOp, hj]
       · rw [if_neg hj]
         obtain ⟨a', e, w, ab⟩ := deleteElem_spec h.arr (resolve v.arr.abs i)
         rw [e]
-        have hset : v.set = true := h.isset (by rw [hk]; intro c; cases c)
-        rw [hset]
-        refine ⟨_, rfl, wf_indexed w _, ?_⟩
+        refine ⟨_, rfl, wf_indexed w _ _, fun _ => ?_⟩
         rw [abs_of_indexed rfl, abs_of_indexed hk]
         simp [specOp, hj, ab]
     | unknown =>
-      refine ⟨v, rfl, h, ?_⟩
+      refine ⟨v, rfl, h, fun _ => ?_⟩
       simp [specOp, Var.abs, hk]
     | str =>
       simp only
       split
       · next h0 =>
         subst h0
-        refine ⟨_, rfl, Var.WF.zero_var, ?_⟩
+        refine ⟨_, rfl, Var.WF.zero_var, fun _ => ?_⟩
         simp [specOp, Var.abs, Var.absMap, hk, Var.zero, SVar.unset]
       · next h0 =>
-        refine ⟨v, rfl, h, ?_⟩
+        refine ⟨v, rfl, h, fun _ => ?_⟩
         simp [specOp, Var.abs, hk, h0]
   | unsetAll =>
     simp only [applyOp]
     split
-    · exact ⟨_, rfl, Var.WF.zero_var, by simp [specOp, Var.abs, Var.absMap, Var.zero, SVar.unset]⟩
+    · exact ⟨_, rfl, Var.WF.zero_var, fun _ => by simp [specOp, Var.abs, Var.absMap, Var.zero, SVar.unset]⟩
     · next hs =>
-      refine ⟨v, rfl, h, ?_⟩
-      have hk : v.kind = .unknown := by
-        cases hk : v.kind with
-        | unknown => rfl
-        | str => exact absurd (h.isset (by rw [hk]; intro c; cases c)) hs
-        | indexed => exact absurd (h.isset (by rw [hk]; intro c; cases c)) hs
-      simp [specOp, Var.abs, Var.absMap, hk, SVar.unset]
+      refine ⟨v, rfl, h, fun ok => ?_⟩
+      simp only [opOK, Bool.or_eq_true, beq_iff_eq] at ok
+      rcases ok with ok | hk
+      · exact absurd ok hs
+      · simp [specOp, Var.abs, Var.absMap, hk, SVar.unset]
+  | readArr vs =>
+    refine ⟨_, rfl, wf_indexed (Arr.WF.dense _) _ _, fun _ => ?_⟩
+    rw [abs_of_indexed rfl]
+    rfl
+  | mapfile vs =>
+    refine ⟨_, rfl, wf_indexed (Arr.WF.dense _) _ _, fun _ => ?_⟩
+    rw [abs_of_indexed rfl]
+    rfl
 
 theorem runOps_spec (ops : List Op) : ∀ (v : Var), v.WF →
-    ∃ v', runOps v ops = .ok v' ∧ v'.WF ∧ v'.abs = specRun v.abs ops := by
+    ∃ v', runOps v ops = .ok v' ∧ v'.WF ∧ (runOK v ops = true → v'.abs = specRun v.abs ops) := by
   induction ops with
-  | nil => intro v h; exact ⟨v, rfl, h, rfl⟩
+  | nil => intro v h; exact ⟨v, rfl, h, fun _ => rfl⟩
   | cons op ops ih =>
     intro v h
     obtain ⟨v1, e1, w1, ab1⟩ := applyOp_spec v op h
     obtain ⟨v2, e2, w2, ab2⟩ := ih v1 w1
     refine ⟨v2, by simp only [runOps, e1, e2], w2, ?_⟩
+    intro ok
+    simp only [runOK, e1, Bool.and_eq_true] at ok
     simp only [specRun, List.foldl_cons]
-    rw [← ab1]
-    exact ab2
+    rw [← ab1 ok.1]
+    exact ab2 ok.2
+
+/-- Apart from `mapfile`, every operation leaves a scalar or array `IsSet()`. -/
+theorem applyOp_setOK {v v' : Var} {op : Op} (hs : v.SetOK) (hm : isMapfile op = false)
+    (e : applyOp v op = .ok v') : v'.SetOK := by
+  have keep : ∀ {base : Arr} {i : Int} {s : Str} {w : Var},
+      setWithIndex v base i s = .ok w → w.SetOK := by
+    intro base i s w e
+    simp only [setWithIndex] at e
+    generalize (if i < 0 then i + (indexedMax base + 1) else i) = k at e
+    by_cases hk : k < 0
+    · rw [if_pos hk] at e; cases e; exact hs
+    · rw [if_neg hk] at e
+      cases hse : setElem base k s with
+      | ok a' => rw [hse] at e; cases e; intro _; rfl
+      | panic => rw [hse] at e; cases e
+  have keepA : ∀ {base : Arr} {i : Int} {s : Str} {w : Var},
+      appendWithIndex v base i s = .ok w → w.SetOK := by
+    intro base i s w e
+    simp only [appendWithIndex] at e
+    generalize (if i < 0 then i + (indexedMax base + 1) else i) = k at e
+    by_cases hk : k < 0
+    · rw [if_pos hk] at e; cases e; exact hs
+    · rw [if_neg hk] at e
+      cases hv : indexedVal base k with
+      | panic => rw [hv] at e; cases e
+      | ok cur =>
+        rw [hv] at e
+        simp only at e
+        cases hse : setElem base k (optStr cur ++ s) with
+        | ok a' => rw [hse] at e; cases e; intro _; rfl
+        | panic => rw [hse] at e; cases e
+  have lift : ∀ {r : Res Arr} {w : Var}, liftArr v r = .ok w → w.SetOK := by
+    intro r w e
+    cases r with
+    | ok a => simp only [liftArr] at e; cases e; intro _; rfl
+    | panic => simp only [liftArr] at e; cases e
+  cases op with
+  | assign es => exact lift e
+  | append es => exact lift e
+  | setElem i s => exact keep e
+  | appElem i s => exact keepA e
+  | setStr s =>
+    simp only [applyOp] at e
+    split at e
+    · exact keep e
+    · cases e; intro _; rfl
+  | appStr s =>
+    simp only [applyOp] at e
+    split at e
+    · exact lift e
+    · cases e; intro _; rfl
+  | unsetElem i =>
+    simp only [applyOp] at e
+    split at e
+    · next hk =>
+      generalize (if i < 0 then i + (indexedMax v.arr + 1) else i) = k at e
+      by_cases hk0 : k < 0
+      · rw [if_pos hk0] at e; cases e; exact hs
+      · rw [if_neg hk0] at e
+        cases hd : deleteElem v.arr k with
+        | ok a' =>
+          rw [hd] at e; cases e
+          intro _; exact hs (by rw [hk]; intro c; cases c)
+        | panic => rw [hd] at e; cases e
+    · split at e
+      · cases e; intro c; exact (c rfl).elim
+      · cases e; exact hs
+    · cases e; exact hs
+  | unsetAll =>
+    simp only [applyOp] at e
+    split at e
+    · cases e; intro c; exact (c rfl).elim
+    · cases e; exact hs
+  | readArr vs => simp only [applyOp] at e; cases e; intro _; rfl
+  | mapfile vs => simp [isMapfile] at hm
+
+theorem opOK_of_setOK {v : Var} (hs : v.SetOK) (op : Op) : opOK v op = true := by
+  cases op <;> simp only [opOK]
+  cases hk : v.kind with
+  | unknown => simp
+  | str => simp [hs (by rw [hk]; intro c; cases c)]
+  | indexed => simp [hs (by rw [hk]; intro c; cases c)]
+
+theorem runOK_of_no_mapfile (ops : List Op) (hm : ops.all (fun o => !isMapfile o) = true) :
+    ∀ v, v.WF → v.SetOK → runOK v ops = true := by
+  induction ops with
+  | nil => intro v _ _; rfl
+  | cons op ops ih =>
+    intro v h hs
+    simp only [List.all_cons, Bool.and_eq_true, Bool.not_eq_true'] at hm
+    obtain ⟨v', e, w, _⟩ := applyOp_spec v op h
+    simp only [runOK, e, Bool.and_eq_true]
+    exact ⟨opOK_of_setOK hs op, ih (by simpa using hm.2) v' w (applyOp_setOK hs hm.1 e)⟩
 
 end ShVerif.C33
